@@ -253,6 +253,12 @@ theorem armReplay_inflight (o : Outbound) (h : o.ArenaInv) : o.armReplay.infligh
     simp [Function.comp, isPubPkt_setDup]
   · rw [he]
 
+theorem rearm_inflight (o : Outbound) (h : o.ArenaInv) : o.rearm.inflightPublishes = o.inflightPublishes := by
+  have hd : o.dropPingreq.ArenaInv := ArenaInv_of_layout h rfl rfl rfl
+  unfold Outbound.rearm
+  rw [armReplay_inflight _ hd]
+  exact inflight_congr rfl rfl rfl
+
 theorem encodeAt_inflight {ε : Type} (o : Outbound) (enc : Nat → (Nat → Nat → Bytes) → Except ε (Nat × Bytes))
     (h : o.ArenaInv) (he : EncOk enc) : (o.encodeAt enc).1.inflightPublishes = o.inflightPublishes := by
   obtain ⟨hi, hc, _, _, _, hr, _⟩ := encodeAt_spec o enc h he
@@ -445,7 +451,7 @@ theorem handleDisconnect_quota (s : Session) (h : QuotaP s) : QuotaP s.handleDis
   refine ⟨arena_of_closed h.1 (fun hp => (closed_ArenaP _).handleDisconnect s hp), ?_⟩
   refine quotaOk_same h.2 ?_ ?_
   · exact ⟨rfl, rfl, rfl⟩
-  · exact armReplay_inflight _ h.1.1
+  · exact rearm_inflight _ h.1.1
 
 theorem completeFlush_quota_fields (s : Session) (pkt : Flushed) (now : Nat) :
     (s.completeFlush pkt now).rt.sendQuota = s.rt.sendQuota ∧ (s.completeFlush pkt now).rt.maxSendQuota = s.rt.maxSendQuota ∧
@@ -608,7 +614,7 @@ theorem closed_QuotaP : Closed QuotaP where
     intro s h
     refine ⟨arena_of_closed h.1 (fun hp => (closed_ArenaP _).beginConnect s hp), ?_⟩
     refine quotaOk_same h.2 ⟨rfl, rfl, rfl⟩ ?_
-    exact armReplay_inflight _ h.1.1
+    exact rearm_inflight _ h.1.1
   setPid := by intro s n _ _ h; exact h
 
 end Minimq
